@@ -4,6 +4,7 @@ import Driver.Infl
 import Driver.Codec
 import Driver.Tomb
 import Driver.Hyb
+import Driver.Lay
 /-
   `foyer_model`: reads traces from stdin, prints one verdict line per trace.
   A trace is a `cfg domain=<d> …` line followed by that domain's lines, up to the next `cfg`.
@@ -23,6 +24,7 @@ def monitor (cfgF : Fields) (body : List (Nat × Fields)) : String :=
   | "codec" => Driver.Codec.monitor body
   | "tomb" => Driver.Tomb.monitor cfgF body
   | "hyb" => Driver.Hyb.monitor cfgF body
+  | "lay" => Driver.Lay.monitor cfgF body
   | _ => "HOLDS"
 
 def dispatch (cfgF : Fields) (body : List (Nat × Fields)) : String :=
@@ -33,6 +35,7 @@ def dispatch (cfgF : Fields) (body : List (Nat × Fields)) : String :=
   | "codec" => Driver.Codec.runTrace cfgF body
   | "tomb" => Driver.Tomb.runTrace cfgF body
   | "hyb" => Driver.Hyb.runTrace cfgF body
+  | "lay" => Driver.Lay.runTrace cfgF body
   | d => s!"REJECT line=0 step=0 field=domain model=unknown impl={d}"
 
 def main : IO Unit := do
